@@ -1030,11 +1030,32 @@ def run_latedir_case(env, case, res):
                             exc_brief(exc), detail=text, vsig="late-load")
                 return
             f = cfg.loggers[0]
+            kept = None
             try:
                 f()
                 first = "returned"
             except Exception as exc:  # noqa
                 first = type(exc).__name__
+                kept = exc
+            # while the application still holds that exception (it is
+            # reporting it, say) the log files are reopened: only handlers
+            # that exist are touched - a handler whose file could not be
+            # opened is not one of them
+            mon.clear()
+            try:
+                env.loghandler.reopenFiles()
+            except OSError:
+                pass
+            except Exception as exc2:  # noqa
+                res.violate("reopenFiles-raises", case,
+                            "reopens the handlers that exist",
+                            exc_brief(exc2),
+                            detail="called while the exception of a failed "
+                            "factory call (%s) was still held" % first,
+                            vsig="late-held|%s" % type(exc2).__name__)
+                return
+            del kept
+            mon.clear()
             res.sig("latedir|%s|%s" % (first, "".join(
                 seq_handler_letter(h) for h in spec["handlers"])))
             os.makedirs(late)
